@@ -45,7 +45,7 @@ fn run_job(j: &Job, map: &Beatmap) -> String {
             Err(e) => format!("{e:?}"),
         },
         3 => dump(&map.convert_ref(j.mode, &j.spec.mods.to_gamemods(j.mode)).map(|c| c.into_owned())),
-        4 => match api::gradual(j.spec.without_passed().to_difficulty(j.mode), map, j.mode) {
+        4 => match api::gradual(j.spec.for_gradual().to_difficulty(j.mode), map, j.mode) {
             Ok(g) => g.step_by(3).take(12).map(|v| dump(&v)).collect::<Vec<_>>().join("|"),
             Err(e) => format!("{e:?}"),
         },
@@ -57,7 +57,7 @@ fn run_job(j: &Job, map: &Beatmap) -> String {
 fn handover(rng: &mut Rng, map: &Beatmap, mode: GameMode, spec: &SetSpec, small: bool) -> Result<(u64, u64), String> {
     use rosu_pp::GradualDifficulty;
     use std::sync::mpsc;
-    let d = spec.without_passed().to_difficulty(mode);
+    let d = spec.for_gradual().to_difficulty(mode);
     let Ok(reference) = GradualDifficulty::new_with_mode(d.clone(), map, mode) else { return Ok((0, 0)) };
     let seq: Vec<String> = reference.map(|v| dump(&v)).collect();
     let n = seq.len();
@@ -120,7 +120,7 @@ fn handover(rng: &mut Rng, map: &Beatmap, mode: GameMode, spec: &SetSpec, small:
 #[cfg(feature = "sync")]
 fn handover_perf(rng: &mut Rng, map: &Beatmap, mode: GameMode, spec: &SetSpec) -> Result<u64, String> {
     use rosu_pp::GradualPerformance;
-    let d = spec.without_passed().to_difficulty(mode);
+    let d = spec.for_gradual().to_difficulty(mode);
     let n_obj = map.hit_objects.len() as u32;
     let sched: Vec<(usize, rosu_pp::any::ScoreState)> = (0..6).map(|_| (rng.usize_below(4), sets::gen_state(rng, n_obj + 1))).collect();
     let Ok(mut reference) = GradualPerformance::new_with_mode(d.clone(), map, mode) else { return Ok(0) };
@@ -160,7 +160,7 @@ fn handover_pingpong(rng: &mut Rng, map: &Beatmap, mode: GameMode, spec: &SetSpe
         Diff(GradualDifficulty, Vec<String>),
         Perf(GradualPerformance, Vec<String>),
     }
-    let d = spec.without_passed().to_difficulty(mode);
+    let d = spec.for_gradual().to_difficulty(mode);
     let Ok(reference) = GradualDifficulty::new_with_mode(d.clone(), map, mode) else { return Ok((0, 0)) };
     let seq: Vec<String> = reference.map(|v| dump(&v)).collect();
     let n_threads = 2 + rng.usize_below(2);
@@ -322,40 +322,26 @@ pub fn case(ctx: &mut Ctx, idx: u64) {
         .collect();
     let all_text = texts.join("\n");
 
-    // sequential reference
-    let seq: Vec<String> = match guard(|| jobs.iter().map(|j| run_job(j, &pool[j.map])).collect::<Vec<_>>()) {
-        Ok(v) => v,
-        Err(p) => {
-            ctx.count("skipped_reference_panic");
-            ctx.violation(&format!("C20/reference-panic/{}", p.sig()), &format!("{} at {}", p.msg, p.loc), Some(&all_text));
-            return;
-        }
-    };
     let before: Vec<String> = pool.iter().map(dump).collect();
     let shared = Arc::new(pool);
     let jobs = Arc::new(jobs);
     ctx.nontrivial(hash_str(&all_text));
 
-    let n_sched = if small {
-        1
-    } else if ctx.thorough() {
-        6
-    } else {
-        3
-    };
-    let mut overlap_total = 0u64;
-    for sched in 0..n_sched {
-        let threads = if small { 2 } else { *rng.pick(&[2usize, 4, 8, 16]) }.min(max_threads.max(2));
-        let owned = sched % 3 == 2; // every third schedule: maps owned per thread instead of shared by reference
-        // random assignment of jobs to threads
+    // One parallel schedule: random assignment of the jobs to `threads` threads, rendezvous, optional start jitter.
+    // `same_first`: every thread starts with job 0 (cold-start campaign: the very first calculations of the process coincide).
+    type Res = Vec<(usize, String, u64, u64, usize)>;
+    let run_schedule = |rng: &mut Rng, threads: usize, owned: bool, jitter: bool, same_first: bool| -> Option<Res> {
         let mut assign: Vec<Vec<usize>> = vec![Vec::new(); threads];
         for j in 0..jobs.len() {
             assign[rng.usize_below(threads)].push(j);
         }
         for a in &mut assign {
             rng.shuffle(a);
+            if same_first {
+                a.insert(0, 0);
+            }
         }
-        let jitters: Vec<u64> = (0..threads).map(|_| rng.below(300)).collect();
+        let jitters: Vec<u64> = (0..threads).map(|_| if jitter { rng.below(300) } else { 0 }).collect();
         let t0 = Instant::now();
         let started = Arc::new(AtomicUsize::new(0));
         let mut handles = Vec::new();
@@ -366,13 +352,15 @@ pub fn case(ctx: &mut Ctx, idx: u64) {
             let jitter = jitters[ti];
             handles.push(std::thread::spawn(move || {
                 let local: Option<Vec<Beatmap>> = if owned { Some((*shared).clone()) } else { None };
-                // start jitter + rendezvous so that the threads really run at the same time
+                // rendezvous (+ start jitter) so that the threads really run at the same time
                 started.fetch_add(1, Ordering::SeqCst);
                 let spin = Instant::now();
                 while started.load(Ordering::SeqCst) < threads && spin.elapsed().as_millis() < 200 {
                     std::hint::spin_loop();
                 }
-                std::thread::sleep(std::time::Duration::from_micros(jitter));
+                if jitter > 0 {
+                    std::thread::sleep(std::time::Duration::from_micros(jitter));
+                }
                 let mut out = Vec::new();
                 for j in my_jobs {
                     let job = &jobs[j];
@@ -388,16 +376,74 @@ pub fn case(ctx: &mut Ctx, idx: u64) {
                 out
             }));
         }
-        let mut results: Vec<(usize, String, u64, u64, usize)> = Vec::new();
+        let mut results: Res = Vec::new();
         for h in handles {
             match h.join() {
                 Ok(v) => results.extend(v),
-                Err(_) => {
+                Err(_) => return None,
+            }
+        }
+        Some(results)
+    };
+
+    // cold-start campaign (`--param cold=1`, one case per process): the parallel schedule runs BEFORE anything else has
+    // been calculated in this process, so lazily initialised process-wide state is set up by racing threads; the
+    // sequential reference is taken afterwards.
+    let cold = ctx.param_u64("cold", 0) == 1;
+    let cold_results = if cold {
+        let threads = max_threads.clamp(2, 16);
+        ctx.count("cold_start_schedules");
+        match run_schedule(&mut rng, threads, false, false, true) {
+            Some(r) => Some((threads, r)),
+            None => {
+                ctx.violation("C20/thread-died", "a worker thread died (cold start)", Some(&all_text));
+                return;
+            }
+        }
+    } else {
+        None
+    };
+
+    // sequential reference
+    let seq: Vec<String> = match guard(|| jobs.iter().map(|j| run_job(j, &shared[j.map])).collect::<Vec<_>>()) {
+        Ok(v) => v,
+        Err(p) => {
+            ctx.count("skipped_reference_panic");
+            ctx.violation(&format!("C20/reference-panic/{}", p.sig()), &format!("{} at {}", p.msg, p.loc), Some(&all_text));
+            return;
+        }
+    };
+
+    let n_sched = if cold {
+        0
+    } else if small {
+        1
+    } else if ctx.thorough() {
+        6
+    } else {
+        3
+    };
+    let mut overlap_total = 0u64;
+    let mut pending: Vec<(usize, bool, bool, Res)> = Vec::new();
+    if let Some((threads, r)) = cold_results {
+        pending.push((threads, false, true, r));
+    }
+    for sched in 0..=n_sched {
+        let (threads, owned, was_cold, results) = if let Some(p) = pending.pop() {
+            p
+        } else if sched < n_sched {
+            let threads = if small { 2 } else { *rng.pick(&[2usize, 4, 8, 16]) }.min(max_threads.max(2));
+            let owned = sched % 3 == 2; // every third schedule: maps owned per thread instead of shared by reference
+            match run_schedule(&mut rng, threads, owned, true, false) {
+                Some(r) => (threads, owned, false, r),
+                None => {
                     ctx.violation("C20/thread-died", "a worker thread died", Some(&all_text));
                     return;
                 }
             }
-        }
+        } else {
+            break;
+        };
         ctx.evals(results.len() as u64);
         ctx.count(&format!("schedules:{threads}-threads"));
         ctx.count(if owned { "schedules:owned-maps" } else { "schedules:shared-maps" });
@@ -411,17 +457,21 @@ pub fn case(ctx: &mut Ctx, idx: u64) {
             }
         }
         overlap_total += overlap;
+        if was_cold {
+            ctx.count_n("cold_start_overlapping_pairs", overlap);
+        }
         for (j, got, _, _, ti) in &results {
             if *got != seq[*j] {
                 let job = &jobs[*j];
                 ctx.violation(
-                    &format!("C20/parallel-vs-sequential/kind{}", job.kind),
+                    &format!("C20/parallel-vs-sequential/kind{}{}", job.kind, if was_cold { "/cold-start" } else { "" }),
                     &format!(
-                        "job #{j} (map {}, mode {}, kind {}) on thread {ti} of {threads} ({}) differs from the sequential run | settings=[{}] overlap={overlap}\n parallel  : {}\n sequential: {}",
+                        "job #{j} (map {}, mode {}, kind {}) on thread {ti} of {threads} ({}{}) differs from the sequential run | settings=[{}] overlap={overlap}\n parallel  : {}\n sequential: {}",
                         job.map,
                         mode_name(job.mode),
                         job.kind,
                         if owned { "owned maps" } else { "shared maps" },
+                        if was_cold { ", first calculations of the process" } else { "" },
                         job.spec.describe(),
                         crate::runner::truncate(got, 800),
                         crate::runner::truncate(&seq[*j], 800)
